@@ -201,7 +201,7 @@ def main():
 
 MANIFEST = {
     "claimed": True,
-    "text": "PARTIAL. Theorem C25_protected / C25_tampered_rejected (Coq, all byte strings, all three key contexts, ideal-AEAD hypothesis `genuine` visible in the statement: besides cookie encryptions with empty associated data only the genuine tuple (nonce n0, associated data a0, ciphertext c0) decrypts): whenever the decoder reports any authenticated field, any encrypted field or recovered cookie keys (also inside a decrypt error), the datagram carries a0 on [0,|a0|) (header and every field before the authenticator), n0 at the authenticator's nonce position and c0 at its ciphertext position; i.e. any change of any bit there makes authentication fail. The second sentence of the property (other changes never make different content appear authenticated) is NOT proved; it is checked by the correspondence and the monitor at every byte position of genuine requests and responses (real AES-SIV-CMAC-256/512, NTPv4/v5, server KeySet and client ciphers).",
-    "note": 'Trusted: Coq kernel+vm_compute; hand-written decoder model (shared with C23); ideal AEAD: forgery probability of AES-SIV idealised to zero and a single protected packet per key (hypothesis `genuine`); the correspondence uses as oracle the table of genuine tuples recorded while the implementation encrypted. Cases of the C24 defect class are not compared with the model (see C23). Print Assumptions: closed under the global context.',
+    "text": "Theorem C25_protected / C25_tampered_rejected (Coq, all byte strings, all three key contexts, ideal-AEAD hypothesis `genuine` visible in the statement: besides cookie encryptions with empty associated data only the genuine tuple (nonce n0, associated data a0, ciphertext c0) decrypts): whenever the decoder reports any authenticated field, any encrypted field or recovered cookie keys (also inside a decrypt error), the datagram carries a0 on [0,|a0|) (header and every field before the authenticator), n0 at the authenticator's nonce position and c0 at its ciphertext position; i.e. any change of any bit there makes authentication fail. Theorem C25_rest_harmless (second sentence, same hypothesis, all three key contexts): for a genuine packet b (it carries a0, then at |a0| what the decoder's field streamer reads as an NTS authenticator with nonce n0 and ciphertext c0, and it decodes without error) and every byte string b' of the same length that agrees with it on the protected ranges, every field b' reports as authenticated (encrypted) is one b reports as authenticated (encrypted), also inside a decrypt error, and cookie keys recovered from b' are those recovered from b; b need not itself authenticate (wrong key or empty content: b' reports nothing either). C25_rest_exact: all or nothing, for every b' of the same length: if b' reports anything trusted, its authenticated and encrypted lists equal b's. C25_rest_equal: any two same-length byte strings that both report something trusted report the same lists. Correspondence and monitor at every byte position of genuine requests and responses (real AES-SIV-CMAC-256/512, NTPv4/v5, server KeySet and client ciphers).",
+    "note": 'Trusted: Coq kernel+vm_compute; hand-written decoder model (shared with C23); ideal AEAD: forgery probability of AES-SIV idealised to zero and a single protected packet per key (hypothesis `genuine`); the correspondence uses as oracle the table of genuine tuples recorded while the implementation encrypted. The second-sentence theorems are for b\' of the SAME length as b (as DESIGN.md states them). When the genuine packet b itself decodes to a decrypt error (e.g. a second, failing authenticator follows the genuine one) its result carries no cookie keys and the theorem\'s key clause is silent: a b\' that changes the bytes after the genuine authenticator can then be accepted with the keys of the genuine cookie (same genuine content, not a forgery). Cases of the C24 defect class are not compared with the model (see C23). Print Assumptions: closed under the global context (5 theorems).',
     "design_ref": 'DESIGN.md 3 C25',
 }
